@@ -118,7 +118,7 @@ def run(ctx: Any, prog: Program) -> None:
     ctx.check('C13.Z2', ent in rf and ent in wf, vpk, wd, f'directory entry: reader formats {rf}, writer formats {wf}; both must use the same 18-byte record', func='VPK.write_dirfile', text='entry format')
     # the tree length patched afterwards is one <I at offset calcsize('<II')
     ok = expand('<I') in wf and any(isinstance(c, ast.Call) and dotted(c.func) == 'file.seek' and ast.unparse(c.args[0]) == "struct.calcsize('<II')" for c in walk_no_nested(wd))
-    ctx.check('C13.Z2', ok, vpk, wd, 'the tree length must be patched into the third header field (seek to calcsize("<II"), pack "<I")', func='VPK.write_dirfile', text='tree length patch')
+    ctx.shape('C13.Z2', ok, vpk, wd, 'the tree length must be patched into the third header field (seek to calcsize("<II"), pack "<I")', func='VPK.write_dirfile', text='tree length patch')
     # entry linkage
     r_ent = next((a for a in ra if a.fmts and expand(a.fmts[0]) == ent), None)
     w_ent = next((a for a in wa if a.fmts and expand(a.fmts[0]) == ent), None)
